@@ -10,6 +10,19 @@ sys.path.insert(0, str(VERIF))
 from nv.normalize import REF_FILE, reference_table  # noqa: E402
 
 repo = Path(sys.argv[1] if len(sys.argv) > 1 else "/repo")
-t = reference_table(repo / "src" / "nanoemoji")
+import ast  # noqa: E402
+from nv.normalize import Normalizer, functions, skeleton, text_skeleton  # noqa: E402
+
+src = repo / "src" / "nanoemoji"
+t = reference_table(src)
+# skeletons are taken on the normal form (the one the rules see)
+nz = Normalizer(ref=t)
+for p in sorted(src.glob("*.py")):
+    tree = ast.parse(p.read_text())
+    nz.module(p.stem, tree)
+    for qn, fn in functions(tree):
+        if f"{p.stem}:{qn}" in t:
+            t[f"{p.stem}:{qn}"]["skeleton"] = skeleton(fn)
+            t[f"{p.stem}:{qn}"]["text_skeleton"] = text_skeleton(fn)
 REF_FILE.write_text(json.dumps(t, indent=0, sort_keys=True) + "\n")
 print(f"{len(t)} functions, {sum(len(e.get('locals', [])) for e in t.values())} locals -> {REF_FILE}")
